@@ -51,6 +51,9 @@ type raceWorkResult struct {
 	MaxGor     int      `json:"max_goroutines"`
 	HookCalls  int64    `json:"hook_calls"`
 	IsoMs      []string `json:"isolated_ms"`
+	Overlaps   []string `json:"bwt_worker_overlaps"`
+	BWTInv     int      `json:"bwt_inverses"`
+	BWTPar     int      `json:"bwt_inverses_with_several_workers"`
 }
 
 type atomicListener struct{ n *int64 }
@@ -138,6 +141,8 @@ func runPipe(p *racePipe, data []byte, events *int64) (stream, back []byte, err 
 }
 
 func runRaceWork(wk *raceWork) (res raceWorkResult) {
+	installBWTMonitor()
+	defer func() { res.Overlaps, res.BWTInv, res.BWTPar = flushBWTMonitor() }()
 	var events int64
 	var hookCalls int64
 	datas := make([][]byte, len(wk.Pipes))
@@ -382,6 +387,9 @@ func c18(run *core.Run, replay string) {
 	// parallel inverse BWT workers: one block > 4 MiB, several jobs for that block (hint in the header)
 	pipes = append(pipes, racePipe{Cfg: kz.Cfg{Transform: "BWT", Entropy: "ANS0", BlockSize: 8 << 20, Jobs: 4, Checksum: 32}, Shape: "html", Size: 4<<20 + 200000, DecJ: 6, Listen: true, Verbose: 5})
 	pipes = append(pipes, racePipe{Cfg: kz.Cfg{Transform: "BWT", Entropy: "NONE", BlockSize: 8 << 20, Jobs: 2, Checksum: 0}, Shape: "text", Size: 4<<20 + 100000, DecJ: 3})
+	// blocks whose eighth is an odd number of bytes (the chunks of the parallel inverse BWT then end on odd positions), 8 and 3 workers
+	pipes = append(pipes, racePipe{Cfg: kz.Cfg{Transform: "BWT", Entropy: "NONE", BlockSize: 8 << 20, Jobs: 1, Checksum: 32}, Shape: "text", Size: 4394312, DecJ: 8})
+	pipes = append(pipes, racePipe{Cfg: kz.Cfg{Transform: "BWT", Entropy: "HUFFMAN", BlockSize: 8 << 20, Jobs: 1, Checksum: 0}, Shape: "html", Size: 4394325, DecJ: 3})
 	for i, ch := range []string{"EXE+LZ", "TEXT+UTF+EXE+PACK+MM+ROLZ", "EXE+PACK"} {
 		pipes = append(pipes, racePipe{Cfg: kz.Cfg{Transform: ch, Entropy: "NONE", BlockSize: 262144, Jobs: uint(3 + i), Checksum: 32}, Shape: []string{"elfx86", "text", "pe"}[i], Size: 4*262144 + 1000, DecJ: 3})
 	}
@@ -436,6 +444,11 @@ func c18(run *core.Run, replay string) {
 		run.SetExtra("isolated_pipeline_cost", res.IsoMs)
 		for _, m := range res.Mismatches {
 			run.Violate("C18 output-differs-under-concurrency", m, wk)
+		}
+		run.Count("inverse_bwt_observed", res.BWTInv)
+		run.Count("inverse_bwt_with_several_workers", res.BWTPar)
+		for _, o := range res.Overlaps {
+			run.Violate("C18 inverse-bwt-workers-write-the-same-byte", o, wk)
 		}
 		for _, e := range res.Errors {
 			run.Violate("C18 pipeline-error", e, wk)
